@@ -10,7 +10,7 @@ from props.c02 import SetattrTrace
 
 ID = "C03"
 LEAN_TARGETS = ["MlVerif.Gen.C03", "MlVerif.Model.Flow", "MlVerif.Model.Lifecycle", "MlVerif.Lemmas.Flow",
-                "MlVerif.Lemmas.Lifecycle", "MlVerif.Properties.C03"]
+                "MlVerif.Lemmas.FlowPair", "MlVerif.Lemmas.Lifecycle", "MlVerif.Properties.C03"]
 PROPERTY_FILE = "MlVerif/Properties/C03.lean"
 DRIVER = None
 TRUSTED = [
@@ -33,7 +33,9 @@ RULE = ("correspondence: every menu estimator is fitted with attribute assignmen
         "fit(A); observers; fit(B); observers vs a fresh instance fit(B); observers, for pairs of training sets of "
         "different sizes / dimensions / label sets under identical seeds; two fits under the same global seed; "
         "integer random_state under two different global seeds. Non-trivial = both fits succeeded")
-LEVEL_TEXT = ("Proof: a definite-rewrite / no-stale-read analysis over the control-flow IR is proved sound in Lean for "
+LEVEL_TEXT = ("Proof: (two-run form) for every accepted fit skeleton, running it with the same inputs from any prior "
+              "attribute state and from a fresh state ends the same way and gives the same value to every attribute an "
+              "observer can read (`refit_is_fresh_fit`, via a lockstep theorem for pair executions); (taint form) a definite-rewrite / no-stale-read analysis over the control-flow IR is proved sound in Lean for "
               "all programs and executions (from any prior state: nothing stale is read, every observable attribute "
               "is rewritten unless fit raises), with a frame theorem for untouched attributes; it is decided in the "
               "kernel on the skeleton of every fit, specialised to each valuation of its hyper-parameter conditions, "
